@@ -34,8 +34,9 @@ func IntProps(propContainer map[string]object.PanObject) map[string]object.PanOb
 					res = -1
 				}
 
-				// NOTE: Int's descendants also call this
-				return object.NewInheritedInt(args[0].Proto(), res)
+				// NOTE: result is always a plain int even if Int's descendants call this
+				// (otherwise Comparable cannot compare the result with -1, 0 or 1)
+				return object.NewPanInt(res)
 			},
 		),
 		// NOTE: this cannot be removed (Comparable uses Int#== internally)
